@@ -2,6 +2,7 @@ package main
 
 import (
 	"context"
+	"fmt"
 	stderrors "errors"
 	"math/rand"
 	"strconv"
@@ -95,6 +96,9 @@ func driveKvWaitPrompt(opt *Options) error {
 		}
 	}
 	if err := driveKvWaitDeadline(tw); err != nil {
+		return err
+	}
+	if err := driveKvWaitWrites(tw); err != nil {
 		return err
 	}
 	return driveKvWaitBrief(tw, opt.Seed)
@@ -247,6 +251,112 @@ func driveKvWaitDeadline(tw *TraceWriter) error {
 			tw.Emit(map[string]any{"e": "deadline", "backend": s.backend, "change": s.change, "timeout_ms": s.timeout.Milliseconds(),
 				"late_ms": late, "ctxdone": ctxDone, "stall_ms": atomic.LoadInt64(&stall), "res": res})
 			break
+		}
+	}
+	return nil
+}
+
+
+// driveKvWaitWrites: two waiters parked on a live record; the record is then replaced or removed by EVERY kind of write
+// there is - also by writes of a record that is already expired when it arrives (in-memory backend; on Redis such a record
+// lives for a millisecond, which makes the reply a race).  Each waiter returns promptly: nil when a live record of another
+// version is there, ErrNotExist when the key is gone ("prompt" lines of PromptTrace.tla).
+func driveKvWaitWrites(tw *TraceWriter) error {
+	past := time.Now().Add(-time.Hour)
+	for _, backend := range []string{"inmem", "redis"} {
+		kinds := []string{"put", "putmany", "cas", "delete", "recreate"}
+		if backend == "inmem" {
+			kinds = append(kinds, "put-past", "putmany-past", "cas-past")
+		}
+		for _, kind := range kinds {
+			for attempt := 0; attempt < 3; attempt++ {
+				var st kvs.Storage
+				var mr *miniredis.Miniredis
+				if backend == "redis" {
+					var err error
+					if mr, err = miniredis.Run(); err != nil {
+						return err
+					}
+					st = kvredis.New(&redis.Options{Addr: mr.Addr()})
+				} else {
+					st = inmem.New()
+				}
+				ctx := context.Background()
+				rec, err := st.Put(ctx, kvs.Record{Key: "k", Value: []byte("v1")})
+				if err != nil {
+					return err
+				}
+				st.Put(ctx, kvs.Record{Key: "other", Value: []byte("o")})
+				type wres struct {
+					at  time.Time
+					err error
+				}
+				done := make(chan wres, 2)
+				for w := 0; w < 2; w++ {
+					go func() {
+						c, cancel := context.WithTimeout(ctx, 8*time.Second)
+						defer cancel()
+						err := st.WaitForVersionChange(c, "k", rec.Version)
+						done <- wres{time.Now(), err}
+					}()
+				}
+				time.Sleep(60 * time.Millisecond)
+				t0 := time.Now()
+				var werr error
+				switch kind {
+				case "put":
+					_, werr = st.Put(ctx, kvs.Record{Key: "k", Value: []byte("v2")})
+				case "put-past":
+					_, werr = st.Put(ctx, kvs.Record{Key: "k", Value: []byte("v2"), ExpiresAt: &past})
+				case "putmany":
+					werr = st.PutMany(ctx, []kvs.Record{{Key: "other", Value: []byte("o2")}, {Key: "k", Value: []byte("v2")}})
+				case "putmany-past":
+					werr = st.PutMany(ctx, []kvs.Record{{Key: "other", Value: []byte("o2")}, {Key: "k", Value: []byte("v2"), ExpiresAt: &past}})
+				case "cas":
+					_, werr = st.CasByVersion(ctx, kvs.Record{Key: "k", Value: []byte("v2"), Version: rec.Version})
+				case "cas-past":
+					_, werr = st.CasByVersion(ctx, kvs.Record{Key: "k", Value: []byte("v2"), Version: rec.Version, ExpiresAt: &past})
+				case "delete":
+					werr = st.Delete(ctx, "k")
+				case "recreate":
+					if werr = st.Delete(ctx, "k"); werr == nil {
+						_, werr = st.Create(ctx, kvs.Record{Key: "k", Value: []byte("v2")})
+					}
+				}
+				if werr != nil {
+					return fmt.Errorf("kvwait writes: %s on %s: %v", kind, backend, werr)
+				}
+				t1 := time.Now()
+				res, late := "", int64(0)
+				for w := 0; w < 2; w++ {
+					r := <-done
+					if rc := errClass(r.err); res == "" || rc != res && (rc != "nil" && rc != "notexist") {
+						res = rc
+					} else if rc != res {
+						res = rc + "+" + res
+					}
+					if l := r.at.Sub(t0).Milliseconds(); l > late {
+						late = l
+					}
+				}
+				if mr != nil {
+					mr.Close()
+				}
+				stall := t1.Sub(t0).Milliseconds() // the write itself taking long is the host's doing
+				if stall > 150 && attempt < 2 {
+					continue
+				}
+				change := kind
+				if kind == "recreate" {
+					// after Delete + Create either answer is right for a waiter that looks in between or afterwards
+					if res == "nil" || res == "notexist" || res == "nil+notexist" || res == "notexist+nil" {
+						res = "nil"
+					}
+					change = "put"
+				}
+				tw.Emit(map[string]any{"e": "prompt", "change": change, "backend": backend, "idle_ms": 60, "late_ms": late, "stall_ms": stall, "res": res})
+				break
+			}
 		}
 	}
 	return nil
